@@ -1,14 +1,16 @@
 #!/bin/bash
 # usage: try_seeded.sh <patch.diff> <tier> <ID> [ID...]
-# applies a seeded change to /repo, runs the given checks, and always restores /repo.
-patch=$1; tier=$2; shift 2
-cd /repo || exit 3
-if [ -n "$(git status --porcelain)" ]; then echo "/repo not clean"; exit 3; fi
-git apply "$patch" || { echo "patch does not apply"; exit 3; }
-trap 'git -C /repo checkout -- . ; git -C /repo clean -fdq' EXIT
+# Runs the given checks against a scratch worktree of /repo HEAD carrying the seeded change
+# (VERIF_REPO, see ./check); /repo itself, evidence/ and replays/ are not touched, so this
+# can run while other checks use /repo. BASE=<rev> picks another base commit.
+patch=$(readlink -f "$1"); tier=$2; shift 2
+W=/tmp/ts-$$
+git -C /repo worktree add -q --detach $W ${BASE:-HEAD} || exit 3
+trap 'git -C /repo worktree remove --force '$W'; rm -rf /verif/bin/alt-ts-'$$ EXIT
+git -C $W apply "$patch" || { echo "patch does not apply"; exit 3; }
 cd /verif
 for id in "$@"; do
-  out=$(VERIF_SEED=${VERIF_SEED:-1} ./check $id --tier $tier 2>&1)
+  out=$(VERIF_REPO=$W VERIF_SEED=${VERIF_SEED:-1} ./check $id --tier $tier 2>&1)
   rc=$?
   echo "== $id exit=$rc"
   echo "$out" | grep "VIOLATION\|INCONCLUSIVE\|violation " | cut -c1-400 | head -4
